@@ -317,7 +317,7 @@ def risky_edit(rnd, spec, objs=None):
     if storages and objs is not None:
         choices += ["fix_storage"]
     if jobs:
-        choices += ["delete_data"]
+        choices += ["delete_data", "zero_duration"]
     if ups:
         choices += ["traffic_up", "traffic_up"]
     if not choices:
@@ -346,6 +346,10 @@ def risky_edit(rnd, spec, objs=None):
         mx = float(np.max(np.asarray(live.value["value"].values._data, dtype=float)))
         return {"op": "set", "obj": n, "attr": "fixed_nb_of_instances", "value": ["q", float(np.ceil(mx)) + rnd.choice([0, 0, 1]), "dimensionless"],
                 "kind": "risky_" + k}
+    if k == "zero_duration":
+        # fails inside a per-pattern dict update, after the fresh (empty) dict has been installed
+        j = rnd.choice(jobs)
+        return {"op": "set", "obj": j, "attr": "request_duration", "value": ["q", 0, "s"], "kind": "risky_" + k}
     if k == "delete_data":
         j = rnd.choice(jobs)
         return {"op": "set", "obj": j, "attr": "data_stored", "value": ["q", -1e9, "TB"], "kind": "risky_" + k}
